@@ -69,15 +69,33 @@ def _job(idx: int) -> List[Dict[str, Any]]:
                 ok = isinstance(v, Num) and v.sym == ("param", f"arg.{fld}") and f"CTOR:{fld}" not in v.prov
                 msg = f"rating({fld}=<{cls}>) stores {short(v)} (term {getattr(v, 'sym', None)}) instead of exactly the given value" + (" — a zero argument falls back to the default" if cls == "zero" else "")
             inst("R20.1", "HOLDS" if ok else "VIOLATED", f"{M.name}.rating", c, rating_m.node.lineno, "" if ok else msg, {"stored": short(v)})
+            nv = f.get("name")
+            okn = isinstance(nv, Str) and "ARG:name" in nv.prov
+            if not okn or (fld == "mu" and cls == "any"):
+                inst("R20.1", "HOLDS" if okn else "VIOLATED", f"{M.name}.rating", f"rating(name=...) keeps the name ({c})", rating_m.node.lineno,
+                     "" if okn else f"the name passed to rating() is not stored ({short(nv) if nv else 'missing'}) when called as {c}")
             if fld == "mu" and cls == "any":
-                nv = f.get("name")
-                okn = isinstance(nv, Str) and "ARG:name" in nv.prov
-                inst("R20.1", "HOLDS" if okn else "VIOLATED", f"{M.name}.rating", "rating(name=...) keeps the name", rating_m.node.lineno,
-                     "" if okn else f"the name passed to rating() is not stored ({short(nv) if nv else 'missing'})")
                 iv = f.get("id")
                 oki = isinstance(iv, Str) and "RANDOM" in iv.prov and "DEFTIME" not in iv.prov
                 inst("R20.3", "HOLDS" if oki else "VIOLATED", f"{R.name}.__init__", "fresh id per construction", R.node.lineno,
                      "" if oki else f"the id of a new rating is not generated afresh inside the constructor on every construction ({short(iv) if iv else 'no id attribute'})")
+
+    # both numbers omitted at once (the everyday call `model.rating(name="...")`)
+    w = World(prog, roles)
+    m = w.make_model()
+    w.I.raises.clear()
+    res = w.call(m, "rating", [], {"mu": _arg("mu", "None"), "sigma": _arg("sigma", "None"), "name": Str(None, frozenset({"ARG:name"}))})
+    f = _fields(w, res)
+    c = "rating(mu=None, sigma=None, name=...)"
+    if w.I.undecided or w.state.bottom or "mu" not in f or "sigma" not in f:
+        inst("R20.1", "UNDECIDED" if w.I.undecided else "VIOLATED", f"{M.name}.rating", c, rating_m.node.lineno,
+             "; ".join(w.I.undecided[:2]) or f"rating() did not return a rating (raises {[e.data['exc'] for e in w.I.raises]})")
+    else:
+        okd = all(isinstance(f[x], Num) and f"CTOR:{x}" in f[x].prov for x in ("mu", "sigma"))
+        nv = f.get("name")
+        okn = isinstance(nv, Str) and "ARG:name" in nv.prov
+        inst("R20.1", "HOLDS" if okd and okn else "VIOLATED", f"{M.name}.rating", c, rating_m.node.lineno,
+             "" if okd and okn else ("the model defaults are not used for both numbers" if not okd else f"the name passed to rating() is not stored ({short(nv) if nv else 'missing'}) when both numbers are omitted"))
 
     # ---------------------------------------------------------------- R20.3 constructor identity
     w = World(prog, roles)
